@@ -194,7 +194,7 @@ Theorem C12_grid_row_major_order (tcols trows : Z) (colflow : bool) (items : lis
 Proof. exact (grid_row_major_order tcols trows colflow items l b). Qed.
 Print Assumptions C12_grid_row_major_order.
 (* still true of the current source (reported, not css-grid 8.5): sparse packing back-fills, so the full
-   (row, column) order is not kept; and an item locked to an otherwise empty row starts on the second column *)
+   (row, column) order is not kept *)
 Theorem C12_grid_lexicographic_order_refuted :
   exists items pl b, valid_items items /\ grid_place 4 2 false false items = Ok (pl, b) /\
     exists it jt xa ya wa ha xb yb wb hb,
@@ -203,10 +203,26 @@ Theorem C12_grid_lexicographic_order_refuted :
       ya = yb /\ (xb < xa)%Z.
 Proof. exact grid_lexicographic_order_refuted. Qed.
 Print Assumptions C12_grid_lexicographic_order_refuted.
-Theorem C12_grid_locked_item_skips_first_cell :
-  grid_place 3 2 false false [it_ GAuto GAuto (GLine 1) GAuto] = Ok ([Some (1, 0, 1, 1)%Z], (0, 3, 0, 2)%Z).
-Proof. exact grid_locked_item_skips_first_cell. Qed.
-Print Assumptions C12_grid_locked_item_skips_first_cell.
+(* fixed in /repo (F244), css-grid 8.5 step 2, sparse packing: an item locked to a row (column) by its placement
+   properties and automatic on the other axis is placed there right after the last track occupied in its rows
+   (columns), with the span its properties give; on the FIRST line when nothing is placed in them *)
+Theorem C12_grid_locked_sparse_position (colflow : bool) (fp : Z * Z) (ss se : gline) (ps : list area) :
+  nonline ss = true -> nonline se = true -> gline_valid ss = true -> gline_valid se = true ->
+  second_placement colflow false fp ss se ps = Some (occ_next (occupied colflow fp ps), auto_size ss se).
+Proof. exact (grid_locked_sparse_position colflow fp ss se ps). Qed.
+Print Assumptions C12_grid_locked_sparse_position.
+Theorem C12_grid_locked_sparse_empty (colflow : bool) (fp : Z * Z) (ss se : gline) (ps : list area) :
+  nonline ss = true -> nonline se = true -> gline_valid ss = true -> gline_valid se = true ->
+  (forall a, In a ps -> intersect (fst (first_of colflow a)) (snd (first_of colflow a)) (fst fp) (snd fp) = false) ->
+  second_placement colflow false fp ss se ps = Some (0, auto_size ss se)%Z.
+Proof. exact (grid_locked_sparse_empty colflow fp ss se ps). Qed.
+Print Assumptions C12_grid_locked_sparse_empty.
+Theorem C12_grid_locked_item_first_cell :
+  grid_place 3 2 false false [it_ GAuto GAuto (GLine 1) GAuto] = Ok ([Some (0, 0, 1, 1)%Z], (0, 3, 0, 2)%Z) /\
+  grid_place 3 2 false false [it_ GAuto GAuto (GLine 2) GAuto] = Ok ([Some (0, 1, 1, 1)%Z], (0, 3, 0, 2)%Z) /\
+  grid_place 3 2 false false [it_ (GSpan 2) GAuto (GLine 2) GAuto] = Ok ([Some (0, 1, 2, 1)%Z], (0, 3, 0, 2)%Z).
+Proof. exact grid_locked_item_first_cell. Qed.
+Print Assumptions C12_grid_locked_item_first_cell.
 
 (* css-grid 8.3 on the current source (`from_end=True`): the lines an item occupies on an axis given by its
    grid-placement properties, negative integers counted from the end of the explicit grid, are the css-grid range *)
